@@ -108,9 +108,24 @@ def snapshot(las):
     )
 
 
+def serialised(las):
+    """bytes of the LAS file a deep copy of the object writes (the copy, because writing updates the header)"""
+    try:
+        import laspy
+        buf = io.BytesIO()
+        dup = laspy.LasData(copy.deepcopy(las.header), laspy.PackedPointRecord(las.points.array.copy(), copy.deepcopy(las.points.point_format)))
+        dup.write(buf)
+        return buf.getvalue()
+    except Exception as ex:
+        return "unwritable " + type(ex).__name__
+
+
 # ---------------------------------------------------------------------------------
 # generators
 # ---------------------------------------------------------------------------------
+PROBLEMS = {}
+
+
 def build_source(spec):
     """spec (JSON-able dict) -> LasData; every random choice comes from Random(spec['seed'])"""
     import laspy
@@ -157,10 +172,13 @@ def build_source(spec):
     elif ev == "empty":
         las.evlrs = VLRList()
     if spec.get("via_file"):
-        buf = io.BytesIO()
-        las.write(buf)
-        buf.seek(0)
-        las = laspy.read(buf)
+        try:
+            buf = io.BytesIO()
+            las.write(buf)
+            buf.seek(0)
+            las = laspy.read(buf)
+        except Exception:      # writing / reading is not this property's subject: keep the in-memory object
+            PROBLEMS["file round trip of the source failed"] = PROBLEMS.get("file round trip of the source failed", 0) + 1
     return las
 
 
@@ -181,7 +199,7 @@ def case_specs(ctx):
         specs.append(s)
 
     vers = [None] + VERS
-    reps = ctx.n(1, 6)
+    reps = ctx.n(2, 20)
     for _ in range(reps):
         for src in FMTS:
             for tgt in FMTS:
@@ -229,7 +247,7 @@ def std_dim_names(fmt):
     return list(laspy.PointFormat(fmt).dimension_names)
 
 
-def oracle(spec, las, before, outcome, res):
+def oracle(spec, las, before, outcome, res, ser_before=None):
     """list of (kind, observed) violations of C12 on this case; outcome = 'ok' | exception kind"""
     bad = []
     src, tgt, ver = spec["src"], spec["tgt"], spec["ver"]
@@ -238,6 +256,10 @@ def oracle(spec, las, before, outcome, res):
     if after != before:
         which = [i for i, (x, y) in enumerate(zip(before, after)) if x != y]
         bad.append(("source modified", f"snapshot components {which} of the source differ after convert ({outcome})"))
+    elif ser_before is not None:
+        ser_after = serialised(las)
+        if ser_after != ser_before:
+            bad.append(("source modified", f"the file written from the source differs after convert ({outcome})"))
     known_t = t in FMTS
     sv = (las.header.version.major, las.header.version.minor)
     if ver is not None:
@@ -356,7 +378,6 @@ def mutate(r):
     for v in r.vlrs:
         if not is_eb(v):
             v.record_data = b"edited"
-            v.description = "edited"
             break
     r.vlrs.append(laspy.VLR("verif", 1, "appended", b"x"))
     if len(r.vlrs) > 1:
@@ -372,6 +393,7 @@ def run_case(spec):
     import laspy
     las = build_source(spec)
     before = snapshot(las)
+    ser_before = serialised(las)
     src_tokens = enc_las(las)
     kw = {}
     if spec["tgt"] is not None:
@@ -390,7 +412,10 @@ def run_case(spec):
             impl = f"ok unreadable-result {type(ex).__name__}: {ex}"
     else:
         impl = "err " + outcome
-    viol = oracle(spec, las, before, outcome, res)
+    try:
+        viol = oracle(spec, las, before, outcome, res, ser_before)
+    except Exception as ex:     # the result (or the source afterwards) cannot even be inspected through the public API
+        viol = [("result unusable", f"inspecting the result of convert {spec['src']}->{spec['tgt']} raised {type(ex).__name__}: {str(ex)[:120]}")]
     cmd = "convert {} {} {} {} {} {} {} {}".format(src_tokens[0], src_tokens[1], "-" if spec["tgt"] is None else spec["tgt"],
                                                      spec["ver"] or "-", *src_tokens[2:])
     return dict(cmd=cmd, impl=impl, viol=viol, outcome=outcome, digest=hash((src_tokens[3], src_tokens[2], src_tokens[4], src_tokens[5])),
@@ -406,7 +431,12 @@ def all_cases(ctx):
         ctx.extra["rule"] = RULE
         out = []
         for spec in case_specs(ctx):
-            c = run_case(spec)
+            try:
+                c = run_case(spec)
+            except Exception as ex:    # the case could not be evaluated at all (not a verdict about the property)
+                k = f"case not evaluated: {type(ex).__name__}: {str(ex)[:80]}"
+                PROBLEMS[k] = PROBLEMS.get(k, 0) + 1
+                continue
             c["spec"] = spec
             out.append(c)
             narrowing = spec["src"] >= 6 and (spec["tgt"] is not None and 0 <= spec["tgt"] <= 5)
@@ -419,6 +449,10 @@ def all_cases(ctx):
             ctx.case((spec["src"], spec["tgt"], spec["ver"], spec["sver"], spec["mode"], c["digest"]), nontrivial=c["nontrivial"],
                      sample={"source_format": spec["src"], "target": spec["tgt"], "version": spec["ver"], "points": c["n"], "outcome": c["outcome"]})
         _CASES = out
+        for k, v in PROBLEMS.items():
+            ctx.notes.append(f"{k} ({v} cases)")
+        if len(out) < 100:
+            raise RuntimeError(f"only {len(out)} cases could be evaluated: {PROBLEMS}")
     return _CASES
 
 
